@@ -568,6 +568,7 @@ structure IConn where
   out : Bytes := []           -- delivered by the calls that returned
   evs : List Ev := []         -- actions performed by the calls that returned
   dead : Bool := false        -- a call did not return `ok` (cut by a close action)
+  panicked : Bool := false    -- a round ended in a Go panic (theorem `interleaved_rounds_never_panic`: never)
   deriving Repr, DecidableEq
 
 def IConn.delivered (ic : IConn) : Bytes :=
@@ -624,7 +625,8 @@ def World.step (w : World) : Step → World
           { l := l', conns := w.conns.set i ic' }
         | (l', c', pd', some st) =>
           let ic' : IConn := { ic with c := c', pend := none, out := ic.out ++ pd'.delivered, evs := ic.evs ++ pd'.evs,
-                                       dead := ic.dead || decide (st ≠ .ok) }
+                                       dead := ic.dead || decide (st ≠ .ok),
+                                       panicked := ic.panicked || decide (st = .panic) }
           { l := l', conns := w.conns.set i ic' }
 
 def World.run (w : World) (steps : List Step) : World := steps.foldl World.step w
